@@ -244,8 +244,57 @@ pub fn gen_grid(rng: &mut Rng, ct: u8, depth: u8, w: u32, h: u32) -> (Grid, GenI
     )
 }
 
+/// "Nothing is spare": an image with an alpha channel whose opaque pixels use every one of the 256 gray shades (255 of
+/// them in a third of the cases), with all-or-nothing alpha and at least one fully transparent pixel - so that a colour
+/// key for the transparent pixels can be found only if a shade is left over. For 16-bit samples the shades are the
+/// values with two equal bytes.
+pub fn gen_ramp(rng: &mut Rng, ct: u8, depth: u8) -> (Grid, GenInfo) {
+    assert!(matches!(ct, 4 | 6) && matches!(depth, 8 | 16));
+    let (w, h) = *rng.choose(&[(17u32, 16u32), (20, 13), (33, 8), (8, 33), (260, 1)]);
+    let n = (w * h) as usize;
+    let c = channels(ct);
+    let max: u16 = if depth == 16 { 0xFFFF } else { 0xFF };
+    let missing: Option<u16> = if rng.chance(1, 3) { Some(rng.below(256) as u16) } else { None };
+    let shade = |k: u16| if depth == 16 { k * 257 } else { k };
+    let mut px: Vec<Vec<u16>> = vec![];
+    for k in 0..256u16 {
+        if Some(k) == missing { continue; }
+        let mut p = vec![shade(k); c];
+        p[c - 1] = max;
+        px.push(p);
+    }
+    let coloured = ct == 6 && rng.chance(1, 3);
+    if coloured {
+        px.push(vec![shade(10), shade(200), shade(30), max]);
+    }
+    let transparent = rng.range(1, 3) as usize;
+    for _ in 0..transparent {
+        let mut p: Vec<u16> = (0..c).map(|_| rng.next_u64() as u16 & max).collect();
+        p[c - 1] = 0;
+        px.push(p);
+    }
+    while px.len() < n {
+        let i = rng.below(px.len() as u64) as usize;
+        let p = px[i].clone();
+        px.push(p);
+    }
+    for i in (1..px.len()).rev() {
+        let j = rng.below(i as u64 + 1) as usize;
+        px.swap(i, j);
+    }
+    let samples: Vec<u16> = px.into_iter().flatten().collect();
+    let class = format!("ramp{}{} ", if missing.is_some() { 255 } else { 256 }, if coloured { "+colour" } else { "" });
+    (Grid { w, h, ct, depth, palette: vec![], trns: None, samples }, GenInfo { class })
+}
+
 /// A random legal image in oxipng layout
 pub fn gen_himg(rng: &mut Rng, max_dim: u32) -> (HImg, GenInfo) {
+    if rng.chance(1, 50) {
+        let (rct, rd) = (*rng.choose(&[4u8, 6]), *rng.choose(&[8u8, 8, 16]));
+        let (g, info) = gen_ramp(rng, rct, rd);
+        let il = rng.chance(1, 4);
+        return (g.pack(il), info);
+    }
     let &(ct, depth) = rng.choose(&LEGAL_PAIRS);
     let (w, h) = gen_dims(rng, max_dim);
     let (g, info) = gen_grid(rng, ct, depth, w, h);
